@@ -214,6 +214,27 @@ def handleC09 (cmd : String) (args : List Sexp) : Option Sexp :=
       | .int i => pure (tagged "int" [ofInt i])
       | .ratio s n => pure (tagged "ratio" [ofInt s, ofNat n])
       | .err => pure (.list [.atom "err"])
+  | "c09.lazy_cmp", [.list members, other, hasDefault] => do
+      let hasDefault ← bool? hasDefault
+      -- leaves of member i of self: `(l 0 (i . path))`; `(f a b)`: the comparison asked for, `(f (sc 93) a b)`: the one named by
+      -- inverse_str, `(f (sc 94) x0 x1 …)`: the stack of the members' entries
+      let ms ← members.mapM paths?
+      let A : List (KV Sym) := ms.zipIdx.map (fun (ks, i) => ks.map (fun k => (k, Sym.l 0 (toString i :: k))))
+      let other : CmpOperand Sym ← (match other with
+        | .list [.atom "tc", ks] => do pure (CmpOperand.tensorclass (mkKV 1 (← paths? ks)))
+        | .list [.atom "coll", .list bs] => do
+            let bms ← bs.mapM paths?
+            pure (CmpOperand.collection (bms.zipIdx.map (fun (ks, i) => ks.map (fun k => (k, Sym.l 1 (toString i :: k))))))
+        | .list [.atom "shape"] => some CmpOperand.shapeMismatch
+        | .list [.atom "sc"] => some (CmpOperand.scalar (Sym.sc 1))
+        | .list [.atom "bad"] => some CmpOperand.unsupported
+        | _ => none)
+      let kvS (kv : KV Sym) : Sexp := .list (kv.map (fun (k, v) => .list [.list (k.map .atom), symToSexp v]))
+      match lazyCmp f2 (fun a b => .ap [.sc 93, a, b]) (fun l => .ap (.sc 94 :: l)) hasDefault A other with
+      | .error e => pure (errSexp e)
+      | .ok .default => pure (tagged "ok" [.list [.atom "default"]])
+      | .ok (.members R) => pure (tagged "ok" [tagged "members" (R.map kvS)])
+      | .ok (.dense r) => pure (tagged "ok" [tagged "dense" [kvS r]])
   | _, _ => none
 
 end TdVerif.Drive
